@@ -24,10 +24,12 @@ def c08ctl (a : List String) (obs : String) : String × String :=
     let mask := parseMask mk
     let masks := parseMasks obs
     let mstr := (obs.splitOn " masks=").getD 1 ""
-    let srcCipher := entry == "H" && server
+    let chunk := natOr ((entry.splitOn "k").getD 1 "0")
+    let srcCipher := entry.startsWith "H" && server
     let wire := if srcCipher then xorSpec payload mask 0 else payload
     let h : Header := { fin := true, rsv := 0, op := natOr op, masked := server, mask := if srcCipher then mask else Mask.zero, len := payload.length }
-    let src : CtlSrc := { chunks := if wire.isEmpty then [] else [wire], writerTo := !srcCipher }
+    let src : CtlSrc := { chunks := if wire.isEmpty then [] else (if chunk == 0 then [wire] else chunksOf chunk wire),
+                          writerTo := !srcCipher && chunk == 0 }
     let model := match handleControl client h src srcCipher { masks } ProtoErr.textBytes with
       | none => "PANIC"
       | some (er, e') => s!"{cerrStr er} @{writesStr2 e'.dst} masks={mstr}"
